@@ -322,8 +322,12 @@ def r163(ctx, fx, rid_prefix="R16.3"):
     ctx.inst(rid, key)
     ok = False
     if ads is not None:
+        lets = {n["pat"]["name"]: n["init"] for n in lib.hwalk(ads.hir["body"]) if n.get("k") == "let" and n["pat"].get("k") == "bind" and "init" in n}
         for x, p in lib.hir_calls(ads.hir["body"], "Definition::set_location"):
-            if "span" in repr(lib.hdesc(lib.hargs(x)[1])) or any(s.get("k") == "struct" for s in lib.hwalk(lib.hargs(x)[1])):
+            arg = lib.hargs(x)[1]
+            if lib.hpath(arg) in lets:
+                arg = lets[lib.hpath(arg)]
+            if "span" in repr(lib.hdesc(arg)) or any(s.get("k") == "struct" for s in lib.hwalk(arg)):
                 ok = True
     if not ok:
         ctx.finding(rid, key, "add_symbol no longer records the definition's location", ads.where if ads else None)
